@@ -40,14 +40,15 @@ type Reduced struct {
 }
 
 type reducer struct {
-	pred    Pred
-	weaker  func(from, to string) bool // may the reduction move from class `from` to the more specific class `to`?
-	class   string
-	f       *File
-	tests   int
-	limit   int
-	goSort  string
-	rawDone map[string]bool
+	pred     Pred
+	weaker   func(from, to string) bool // may the reduction move from class `from` to the more specific class `to`?
+	class    string
+	f        *File
+	tests    int
+	limit    int
+	goSort   string
+	noRename bool
+	rawDone  map[string]bool
 }
 
 // KeyOf names a reduced program: the cell name if it is one, else its text.
@@ -66,7 +67,13 @@ func KeyOf(src string) string {
 // nil) declares a more specific form of the current one — mixed classes
 // (several causes in one program) can then be taken apart.
 func Reduce(src, class string, pred Pred, weaker func(from, to string) bool) Reduced {
-	r := &reducer{pred: pred, weaker: weaker, class: class, limit: 6000}
+	return ReduceOpt(src, class, pred, weaker, false)
+}
+
+// ReduceOpt is Reduce; noRename switches the canonical renaming of identifiers
+// inside Go text off.
+func ReduceOpt(src, class string, pred Pred, weaker func(from, to string) bool, noRename bool) Reduced {
+	r := &reducer{pred: pred, weaker: weaker, class: class, limit: 6000, noRename: noRename}
 	f, ok := Lift(src)
 	if ok && r.test(f.String()) {
 		r.f = f
@@ -397,7 +404,7 @@ func (r *reducer) canonItems() {
 		if r.rawDone == nil {
 			r.rawDone = map[string]bool{}
 		}
-		if it.K == IGo && !r.rawDone[it.Sig] {
+		if it.K == IGo && !r.rawDone[it.Sig] && !r.noRename {
 			// css / script templates and Go blocks are opaque text: shorten token-wise, rename identifiers
 			o := it.Sig
 			// gofmt is not idempotent for a comment in front of a declaration on the same line
@@ -413,7 +420,7 @@ func (r *reducer) canonItems() {
 			})
 			cur := strings.Join(ts, "")
 			it.Sig = cur
-			if v := strings.Join(renameIdents(ts, 1, []string{"x1", "x2", "x3", "x4", "x5", "x6"}), ""); v != cur {
+			if v := strings.Join(renameIdents(ts, 1, []string{"x1", "x2", "x3", "x4", "x5", "x6"}), ""); v != cur && !r.noRename {
 				r.try(func() { it.Sig = v }, func() { it.Sig = cur })
 			}
 			if r.rawDone == nil {
@@ -818,7 +825,7 @@ func (r *reducer) canonS(p *string, tokens bool, canon ...string) {
 		}
 		cur := strings.Join(ts, "")
 		*p = cur
-		if v := strings.Join(renameIdents(ts, 0, names), ""); v != cur && (goOK(r.goSort, v) || !goOK(r.goSort, cur)) {
+		if v := strings.Join(renameIdents(ts, 0, names), ""); v != cur && !r.noRename && (goOK(r.goSort, v) || !goOK(r.goSort, cur)) {
 			if r.try(func() { *p = v }, func() { *p = cur }) {
 				cur = v
 			}
